@@ -83,6 +83,11 @@ CLAIMED = {
         text="TLC enumerates ~10k configurations (6 synthetic topologies x all process masks up to 6 PUs / windows and strides above x thread counts incl. |mask|+1 and the keywords cores/all x 5 binding modes x a second pool) and a hash-selected sample (all of 1/4 in thorough) is executed by the real runtime under HWLOC_SYNTHETIC, plus random taskset masks on the real machine with OS-reported affinity; every outcome must satisfy the TLA+ predicate: one PU per worker inside the mask, no sharing, reported = bound, exactly one pool per worker, impossible requests rejected, 'none' unbound",
         note="TLC is used as enumerator and as evaluator of the predicate (no interleavings involved); multi-socket/SMT binding only via the masks pika computes under synthetic hwloc; one open finding (bind=none oversubscription)",
         design="5/C15"),
+    "C16": dict(
+        technique="TLA+ spec ConfigAbs (resolution rule over sources, with named deviations); TLC enumerates every source/value assignment per setting (ConfigCases) and judges, as a trace, the value the live runtime actually uses for each",
+        text="TLC enumerates all 1292 assignments of {absent, valid A, valid B, invalid, keyword} to the sources (environment variable, PIKA_COMMANDLINE_OPTIONS, --pika:ini, specific option) of six settings; each case (quick: 600 sampled) is started for real and the value in use is read from the live runtime (worker count, scheduler, per-worker masks, stack size of a default task, config entry), not from the parsed options; TLC evaluates the resolution rule on every outcome and names the deviation that explains a rejected one; unknown options and non-pika argument pass-through are covered too",
+        note="TLC is enumerator and evaluator of the rule (no interleavings); one setting varied at a time; two open findings (duplicate option across PIKA_COMMANDLINE_OPTIONS and command line aborts; invalid stack size silently ignored)",
+        design="5/C16"),
 }
 
 NOT_YET = {}
